@@ -4,3 +4,7 @@ from ..scen_limiter import limiter
 
 def run(ctx):
     limiter(ctx, {'step', 'err', 'nopanic', 'lifecycle'})
+    from ..scen_sorter import sorter
+    sorter(ctx, want_order=False, want_topn=True)
+    from ..scen_go import go_chain
+    go_chain(ctx, want=('go.capacity',))
